@@ -9,6 +9,7 @@ from ..model import AnalysisError
 from ..report import Ctx, where
 from ..shape import Shapes, TOP
 from ..terms import show, walk
+from .immut import fresh_view
 from .shape_rules import cache_root, cache_stores, shapes_contradiction
 
 S = ("param", "self")
@@ -92,11 +93,12 @@ def sh4(ctx: Ctx, shapes: Shapes):
         ctx.functions.add(fi.qual)
         results = {}
         for st, rv, node in r.returns:
-            if rv[0] != "new":
+            view = fresh_view(model, st, rv)
+            if view is None:
                 continue
             if shapes_contradiction(shapes, st, fi, r):
                 continue        # infeasible constructor path
-            cache = st.heap.get((rv, "_cache"))
+            cache = view.get("_cache")
             entries = {}
             t = cache
             while t is not None and t[0] == "mut":
@@ -104,8 +106,8 @@ def sh4(ctx: Ctx, shapes: Shapes):
                     entries.setdefault(t[3][0][1], t[3][1])
                 t = t[1]
             init = State(facts=dict(st.facts))
-            for (obj, attr), v in st.heap.items():
-                if obj == rv and attr != "_cache":
+            for attr, v in view.items():
+                if attr != "_cache":
                     init.heap[(S, attr)] = v
             _assembly(ctx, rule, fi, r, st, node, entries, init.heap.get((S, "_netloc")), results)
             for k, ev in entries.items():
